@@ -356,7 +356,7 @@ def harness_cases(tier, sd):
             add("gen", name, [B(top), {"op": "delete", "s": g}, B(top), B(top), {"op": "delete", "s": g}, B(top, "dry"), B(top)])
         if shape.get("dirs"):
             d = shape["dirs"][0]
-            for kind in ("rename", "swap", "edit"):
+            for kind in ("rename", "swap", "edit", "hidden", "hidden-nested"):
                 for rep in range(1 if quick else 3):
                     add("dir", name, [B(top), {"op": "edit_src", "s": d, "kind": kind}, B(top), {"op": "edit_src", "s": d, "kind": kind}, B(top)])
         # a dry run followed by a plain run (no options, as watch mode passes) on the same Project
@@ -493,7 +493,7 @@ def harness_cases(tier, sd):
                 s = rnd.choice(srcs)
                 st = {"op": "edit_src", "s": s}
                 if s in cur.get("dirs", []):
-                    st["kind"] = rnd.choice(["rename", "swap", "edit"])
+                    st["kind"] = rnd.choice(["rename", "swap", "edit", "hidden", "hidden-nested"])
                 steps.append(st)
             elif r < 0.82 and gens:
                 steps.append({"op": "delete", "s": rnd.choice(gens)})
